@@ -1,6 +1,7 @@
 package filesystem
 
 import (
+	"bufio"
 	"context"
 	"crypto"
 	"errors"
@@ -21,6 +22,7 @@ import (
 	"github.com/go-git/go-git/v6/plumbing/format/idxfile"
 	"github.com/go-git/go-git/v6/plumbing/format/objfile"
 	"github.com/go-git/go-git/v6/plumbing/format/packfile"
+	packutil "github.com/go-git/go-git/v6/plumbing/format/packfile/util"
 	"github.com/go-git/go-git/v6/plumbing/hash"
 	"github.com/go-git/go-git/v6/plumbing/storer"
 	"github.com/go-git/go-git/v6/storage/filesystem/dotgit"
@@ -877,7 +879,36 @@ func (s *ObjectStorage) decodeDeltaObjectAt(
 		return nil, err
 	}
 
-	return newDeltaObject(obj, hash, base, header.Size), nil
+	// header.Size is the length of the delta itself. What ActualSize has to
+	// report, the size of the object the delta produces, is in the delta's
+	// own header.
+	size, err := deltaTargetSize(obj)
+	if err != nil {
+		return nil, err
+	}
+
+	return newDeltaObject(obj, hash, base, size), nil
+}
+
+// deltaTargetSize reads the size of the resulting object out of a delta: a
+// delta starts with two variable-length sizes, that of its base and that of
+// its result.
+func deltaTargetSize(delta plumbing.EncodedObject) (size int64, err error) {
+	r, err := delta.Reader()
+	if err != nil {
+		return 0, err
+	}
+	defer ioutil.CheckClose(r, &err)
+
+	br := bufio.NewReader(r)
+	if _, err := packutil.DecodeLEB128FromReader(br); err != nil {
+		return 0, fmt.Errorf("delta header: base size: %w", err)
+	}
+	target, err := packutil.DecodeLEB128FromReader(br)
+	if err != nil {
+		return 0, fmt.Errorf("delta header: target size: %w", err)
+	}
+	return int64(target), nil
 }
 
 // findObjectInPackfile locates h across the storage's packs and
